@@ -156,6 +156,13 @@ def judge(run, spec, r):
             if r.impl.startswith('CRASH Timeout') and r.o.get('arithmetic') == 'rational' and r.o['rule'] in ('meek', 'warren'):
                 return []       # CPU budget overrun of exact Meek: 'not explored'
             sigs.append(r.impl.split(' | ')[0])
+            return sigs
+        if r.partial is None or not r.impl_or:
+            return sigs
+        # the record written before the exception is judged, except by predicates that need a completed count
+        for k in spec['keys']:
+            if k not in ('C01', 'C18', 'C05') and r.impl_or.get(k, '1') != '1':
+                sigs.append(k)
         return sigs
     if not r.impl_or:
         return ['BAD-LINE']
